@@ -18,6 +18,8 @@
 (*                     inserts under the write lock without re-checking    *)
 (*   GetWithoutLock    Get reads the map without taking the lock           *)
 (*   ReadLockForWrite  Remove takes only the read lock                     *)
+(*   ClearPerName      Clear empties the map one name at a time, releasing *)
+(*                     the lock in between (a lock per shard)              *)
 (***************************************************************************)
 EXTENDS Integers, Sequences, FiniteSets, TLC
 
@@ -62,8 +64,11 @@ Init ==
   /\ inv = [p \in Procs |-> 0]
   /\ racing = FALSE
 
+(* which calls a goroutine may make (all of them; a configuration may narrow this to keep a scenario small) *)
+CallAllowed(p, o) == TRUE
+
 Call(p, o) ==
-  /\ pc[p] = "idle" /\ ncalls[p] < MaxCalls
+  /\ pc[p] = "idle" /\ ncalls[p] < MaxCalls /\ CallAllowed(p, o)
   /\ pc' = [pc EXCEPT ![p] = "waiting"]
   /\ op' = [op EXCEPT ![p] = o]
   /\ ncalls' = [ncalls EXCEPT ![p] = @ + 1]
@@ -135,7 +140,21 @@ Finish(p) ==
             /\ wins' = [wins EXCEPT ![o.name] = 0]
             /\ winner' = [winner EXCEPT ![o.name] = None]
             /\ Complete(p, <<"done">>) /\ Release(p) /\ UNCHANGED seen
-       [] o.kind = "Clear" ->
+       [] o.kind = "Clear" /\ Dev("ClearPerName") ->
+            (* deviation: the registry is emptied one name at a time, the lock released in between *)
+            (* (a sharded map with a lock per shard); seen[p] holds the names still to be visited   *)
+            LET todo == IF seen[p] = None THEN Names ELSE seen[p]
+                n == CHOOSE x \in todo : TRUE
+            IN /\ cache' = [cache EXCEPT ![n] = None]
+               /\ wins' = [wins EXCEPT ![n] = 0]
+               /\ winner' = [winner EXCEPT ![n] = None]
+               /\ Release(p)
+               /\ IF todo \ {n} = {}
+                  THEN Complete(p, <<"done">>) /\ seen' = [seen EXCEPT ![p] = None]
+                  ELSE /\ seen' = [seen EXCEPT ![p] = todo \ {n}]
+                       /\ pc' = [pc EXCEPT ![p] = "waiting2"]
+                       /\ UNCHANGED <<op, ret, hist, clock>>
+       [] o.kind = "Clear" /\ ~Dev("ClearPerName") ->
             /\ cache' = [n \in Names |-> None]
             /\ wins' = [n \in Names |-> 0]
             /\ winner' = [n \in Names |-> None]
